@@ -394,4 +394,74 @@ theorem cutBefore_keeps (t : Nat) (ds : List Deliv) (d : Deliv) (hd : d ∈ ds) 
   unfold cutBefore
   exact List.mem_filter.mpr ⟨hd, by simpa using ht⟩
 
+/-! ### closed forms of the relay phase (for an arbitrary front-end result `f`) -/
+
+/-- client side ends first (or at the same time), without a latched error -/
+theorem relayPhase_client_first (cfg : Cfg) (f : Front) (u : Script) (hp : f.st.poisoned = false)
+    (hle : max f.T f.rest.finT ≤ max f.T u.finT) :
+    relayPhase cfg f u =
+      if f.rest.fin = .eof then
+        if max f.T u.finT < max f.T f.rest.finT + grace then
+          ⟨some f.T, f.armed.isSome, natDelivs f.T f.st.content f.rest,
+            if cfg.rightCW then max f.T f.rest.finT else max f.T u.finT,
+            natDelivs f.T [] u, max f.T u.finT, max f.T u.finT⟩
+        else
+          ⟨some f.T, f.armed.isSome, natDelivs f.T f.st.content f.rest,
+            if cfg.rightCW then max f.T f.rest.finT else max f.T f.rest.finT + grace,
+            cutBefore (max f.T f.rest.finT + grace) (natDelivs f.T [] u),
+            max f.T f.rest.finT + grace, max f.T f.rest.finT + grace⟩
+      else
+        ⟨some f.T, f.armed.isSome, natDelivs f.T f.st.content f.rest, max f.T f.rest.finT,
+          cutBefore (max f.T f.rest.finT) (natDelivs f.T [] u), max f.T f.rest.finT, max f.T f.rest.finT⟩ := by
+  unfold relayPhase
+  simp only [hp, dirNatural_clean, hle, ↓reduceIte]
+  cases hf : f.rest.fin with
+  | eof =>
+    simp only [resolve, beq_self_eq_true, Bool.not_true, Bool.false_eq_true, ↓reduceIte]
+    by_cases hg : max f.T u.finT < max f.T f.rest.finT + grace
+    · simp only [hg, ↓reduceIte]
+    · simp only [hg, ↓reduceIte]
+  | reset =>
+    have : (Fin.reset == Fin.eof) = false := by decide
+    simp [resolve, this]
+
+/-- upstream side ends first -/
+theorem relayPhase_upstream_first (cfg : Cfg) (f : Front) (u : Script) (hp : f.st.poisoned = false)
+    (hlt : max f.T u.finT < max f.T f.rest.finT) :
+    relayPhase cfg f u =
+      if u.fin = .eof then
+        if max f.T f.rest.finT < max f.T u.finT + grace then
+          ⟨some f.T, f.armed.isSome, natDelivs f.T f.st.content f.rest, max f.T f.rest.finT,
+            natDelivs f.T [] u,
+            if cfg.leftCW then max f.T u.finT else max f.T f.rest.finT, max f.T f.rest.finT⟩
+        else
+          ⟨some f.T, f.armed.isSome,
+            cutBefore (max f.T u.finT + grace) (natDelivs f.T f.st.content f.rest), max f.T u.finT + grace,
+            natDelivs f.T [] u,
+            if cfg.leftCW then max f.T u.finT else max f.T u.finT + grace, max f.T u.finT + grace⟩
+      else
+        ⟨some f.T, f.armed.isSome, cutBefore (max f.T u.finT) (natDelivs f.T f.st.content f.rest),
+          max f.T u.finT, natDelivs f.T [] u, max f.T u.finT, max f.T u.finT⟩ := by
+  unfold relayPhase
+  have hnle : ¬ max f.T f.rest.finT ≤ max f.T u.finT := by omega
+  simp only [hp, dirNatural_clean, hnle, ↓reduceIte]
+  cases hf : u.fin with
+  | eof =>
+    simp only [resolve, beq_self_eq_true, Bool.not_true, Bool.false_eq_true, ↓reduceIte]
+    by_cases hg : max f.T f.rest.finT < max f.T u.finT + grace
+    · simp only [hg, ↓reduceIte]
+    · simp only [hg, ↓reduceIte]
+  | reset =>
+    have : (Fin.reset == Fin.eof) = false := by decide
+    simp [resolve, this]
+
+/-- a latched stream error: the relay collapses at once, after forwarding what was buffered -/
+theorem relayPhase_poisoned (cfg : Cfg) (f : Front) (u : Script) (hp : f.st.poisoned = true) :
+    relayPhase cfg f u =
+      ⟨some f.T, f.armed.isSome, if f.st.content.isEmpty then [] else [⟨f.T, f.st.content⟩], f.T,
+        cutBefore f.T (natDelivs f.T [] u), f.T, f.T⟩ := by
+  unfold relayPhase
+  have hle : f.T ≤ max f.T u.finT := by omega
+  simp [hp, dirNatural_poisoned, dirNatural_clean, hle, resolve]
+
 end DaeVerif.C05
